@@ -8,7 +8,10 @@ C19 -- Verilog generation is a pure, repeatable function of the circuit.
     the first text returned for it: same interface, same state variables, same power-up state,
     equal outputs and next state for all inputs/states -- equality 'up to declaration order and
     instance-unique suffixes' is decided by the solver, not by a textual diff;
-(c) the module text of a sub-block requested through different ancestors likewise.
+(c) the module text of a sub-block requested through different ancestors likewise;
+(d) requests for several circuits interleaved in one process: every text is proved equivalent to
+    the text a fresh interpreter returns for the same circuit (state kept in classes or modules
+    of the generator/transpiler would show up here).
 """
 import io
 import itertools
@@ -78,7 +81,85 @@ def d_behav(s):
     return {'ins': {'x': x, 'stop': st}, 'outs': {'sync': sy, 'active': ac, 'rst': rs}}
 
 
-DESIGNS = {'structural': d_struct, 'hierarchy': d_hier, 'behavioural leaves': d_behav}
+class KComb(py4hw.Logic):
+    """behavioural block whose constructor argument is a constant of the emitted module"""
+    def __init__(self, parent, name, a, r, k):
+        super().__init__(parent, name)
+        self.a = self.addIn('a', a)
+        self.r = self.addOut('r', r)
+        self.k = k
+
+    def propagate(self):
+        self.r.put(self.a.get() + self.k)
+
+
+class KSeq(py4hw.Logic):
+    def __init__(self, parent, name, a, r, k):
+        super().__init__(parent, name)
+        self.a = self.addIn('a', a)
+        self.r = self.addOut('r', r)
+        self.k = k
+
+    def clock(self):
+        self.r.prepare(self.a.get() ^ self.k)
+
+
+def d_const(k):
+    def build(s):
+        a, t, r = W(s, 'a', 4), W(s, 't', 4), W(s, 'r', 4)
+        KComb(s, 'kc', a, t, k)
+        KSeq(s, 'ks', t, r, k + 1)
+        return {'ins': {'a': a}, 'outs': {'r': r, 't': t}}
+    return build
+
+
+DESIGNS = {'structural': d_struct, 'hierarchy': d_hier, 'behavioural leaves': d_behav, 'constructor constants k=3': d_const(3),
+           'constructor constants k=5': d_const(5)}
+
+
+def ref_text(dname):
+    """text of a whole-hierarchy request for the design (used from a fresh interpreter, see isolation_task)"""
+    with quiet():
+        s = py4hw.HWSystem()
+        box, ins, outs, extra = wrap_in_box(DESIGNS[dname], 'seq')(s)
+    return gen('H', box, {})
+
+
+def fresh_process_text(dname):
+    import subprocess
+    code = 'import sys; sys.path.insert(0, %r); from checks import c19; sys.stdout.write("@@BEGIN@@" + c19.ref_text(%r))' % ('/verif', dname)
+    r = subprocess.run([sys.executable, '-W', 'ignore', '-c', code], capture_output=True, text=True, cwd='/verif', timeout=300)
+    if r.returncode != 0 or '@@BEGIN@@' not in r.stdout:
+        raise RuntimeError('fresh interpreter failed: %s' % r.stderr[-300:])
+    return r.stdout.split('@@BEGIN@@', 1)[1]
+
+
+def isolation_task(p, cfg, rec):
+    """requests for several circuits interleaved in this process: every text is proved equivalent to the text
+    a fresh interpreter (nothing generated before) returns for the same circuit"""
+    names, order = cfg['designs'], cfg['order']
+    boxes = {}
+    with quiet():
+        for dn in names:
+            s = py4hw.HWSystem()
+            boxes[dn] = wrap_in_box(DESIGNS[dn], 'seq')(s)[0]
+    refs = {}
+    for dn in names:
+        try:
+            refs[dn] = fresh_process_text(dn)
+        except Exception as e:
+            p.inconclusive('reference', 'fresh interpreter: %r' % e)
+            return
+    gens = {}
+    for k, (dn, kind) in enumerate(order):
+        try:
+            t = gen(kind, boxes[dn], gens.setdefault(dn, {}))
+        except Exception as e:
+            p.structural('request %d (%s on %s) completes' % (k, kind, dn), False, detail={'exception': repr(e)})
+            continue
+        p.res['programs'] += 1
+        if t is not None:
+            equivalent_texts(p, 'request %d (%s on %s) vs the text of a fresh interpreter' % (k, kind, dn), refs[dn], t)
 
 
 def graph_snapshot(obj):
@@ -311,6 +392,14 @@ def tasks_for(tier):
         for sq in seqs:
             t.append(('%s: requests %s' % (dn, ' '.join(sq)), seq_task, {'design': dn, 'seq': sq}))
     t.append(('sub-block modules requested from different ancestors', ancestor_task, {}))
+    k3, k5 = 'constructor constants k=3', 'constructor constants k=5'
+    inter = [[(k3, 'H'), (k5, 'H')], [(k5, 'H'), (k3, 'H'), (k5, 'h'), (k3, 'h')], [('behavioural leaves', 'H'), (k5, 'H'), ('structural', 'H'), (k3, 'H')]]
+    if not quick:
+        inter += [[(k3, 'h'), (k5, 'h'), (k3, 'h'), (k5, 'h')], [(k5, 'S'), (k3, 'M'), (k3, 'H'), (k5, 'H')], [('hierarchy', 'H'), (k3, 'H'), ('hierarchy', 'h'), (k5, 'H')]]
+    for od in inter:
+        names = sorted(set(dn for dn, _ in od))
+        t.append(('interleaved circuits vs fresh interpreter: %s' % ' '.join('%s(%s)' % (kind, dn.split()[-1]) for dn, kind in od), isolation_task,
+                  {'designs': names, 'order': od}))
     return t
 
 
@@ -321,7 +410,8 @@ def main(argv=None):
         technique='SMT equivalence (z3 QF_BV): terms of one symbolic clock step before vs after generation; every returned text elaborated (E2) and proved equivalent to the first text for the circuit',
         assumptions=['request kinds: H whole hierarchy with a fresh generator, h same generator object, S caller-supplied createdStructures, M single module (fresh generator), m/c/p the same generator object asked for the single top module / a child module / the hierarchy of a child, O generation for another circuit, digits = clk(n) in between; every text is compared with a reference generated by a fresh generator before the sequence',
                      'two-state Verilog semantics (see C01)'],
-        bounds={'designs': sorted(DESIGNS), 'sequences': 'up to 3 generation requests (5 items) per sequence', 'sub-blocks': '3 sub-blocks x 4 ancestors'},
+        bounds={'designs': sorted(DESIGNS), 'sequences': 'up to 3 generation requests (5 items) per sequence', 'sub-blocks': '3 sub-blocks x 4 ancestors',
+                'interleaving': 'up to 4 requests over 2..4 circuits, two of which instantiate the same behavioural classes with different constructor constants; reference text from a fresh interpreter per circuit'},
         trusted_base=['z3', 'symx', 'vlog front end'])
 
 
